@@ -72,6 +72,16 @@ def obligations(tier):
     # struct frames of the Thrift decoder on inputs nesting deeper than its frame array (an arbitrary-bytes input of >= 33 bytes that the
     # all-bytes-free windows above are too short for); the obligation is C13's, shared (added after seeded C08-thrift-nesting-guard)
     from props import C13_e1
+    # DELTA_BINARY_PACKED decoder on specification streams CUT at every length (streams long enough to hold whole wide mini-blocks, which the
+    # all-bytes-free windows cannot reach; added after seeded C08-delta-wide-bounds-merged): memory safety + consumed <= given
+    from props import C12_e2
+    cuts = [(1, 33, 7), (1, 33, 6), (0, 33, 5)] if q else [(1, 33, 7), (1, 33, 6), (1, 33, 8), (1, 34, 5), (1, 66, 7), (0, 33, 5), (0, 34, 4), (0, 66, 5), (1, 3, 7), (0, 3, 0)]
+    for wide, n, ws in cuts:
+        ob = C12_e2.delta(wide, n, wsel=ws, strict=0, timeout=900, tag='/cut-at-every-length')
+        ob.name = 'delta-cut/' + ob.name[len('delta-dec/'):]
+        ob.defines = list(ob.defines) + ['-DVCUT=1']; ob.fork_max = 1024; ob.max_paths = 400000
+        ob.bounds += '; the stream is CUT at every length k < its size (exact-size heap object); no value assertions'
+        o.append(ob)
     for ng in C13_e1.nesting_guard(tier):
         ng.name = 'thrift-' + ng.name
         o.append(ng)
